@@ -81,7 +81,7 @@ def run(ctx):
                         "sessions are bounded so that every delta fits an SMF delta time (< 2^28 ticks) and 2^24 ms",
                         "the initial tempo event is FF 51 03 with the recording tempo within one microsecond per quarter note"]
     ctx.model_check("MC_Recorder", "MC_Recorder_quick.cfg" if q else "MC_Recorder.cfg", timeout=1500)
-    recs = gen(ctx, 1200 if q else 20000, ctx.seed + 13000)
+    recs = gen(ctx, 1000 if q else 12000, ctx.seed + 13000)
     fails = validate(ctx, recs)
     nev = sum(max(0, len(r["track"]) - 2) for r in recs)
     npos = sum(1 for r in recs for e in r["track"][2:-1] if e["d"] != [0])
